@@ -223,7 +223,7 @@ static void caseStructural(vh::Rng& g)
 
 static void caseC17(uint64_t idx, vh::Rng& g)
 {
-	switch (idx % 4) { case 0: caseStructural(g); break; case 1: history<PLeaf>(g, "C17", false); break; default: history<unsigned>(g, "C17", false); break; }
+	switch (vh::splitmix64(idx * 11 + 5) % 4) { case 0: caseStructural(g); break; case 1: history<PLeaf>(g, "C17", false); break; default: history<unsigned>(g, "C17", false); break; }
 }
 static void caseC18(uint64_t idx, vh::Rng& g)
 {
